@@ -8,10 +8,13 @@
     Second part (C16_Proofs_Hist.v): argument objects with a call history.  [vstep] is one step in the life of a Vector object
     (a write, +=, -=, an assignment, Resize, Normalize, ..., or a question: Norm, Dot, Angle, an earlier Rotation_Matrix /
     Spherical_Coordinates call with the object), [vhistory start h] the object after the history h, [rotation_of_object] /
-    [spherical_of_object] the call with that object; [angle] is Angle, [vecm w M] the library's w * M. *)
+    [spherical_of_object] the call with that object; [angle] is Angle, [vecm w M] the library's w * M.
+    Third part (C16_Proofs_Seq.v): histories of calls in one process.  [call] is one call of Rotation_Matrix (with an axis or with
+    the default axis), of either Spherical_Coordinates or of Angle, [call_answer c] its answer, [calls_run cs] the answers of the
+    calls cs made one after the other in one process (the source keeps nothing between two calls, so neither does the model). *)
 From Coq Require Import Reals ZArith List.
 From Coquelicot Require Import Coquelicot.
-From LP Require Import Num NumR C16_Model C16_Proofs C16_Proofs_Hist.
+From LP Require Import Num NumR C16_Model C16_Proofs C16_Proofs_Hist C16_Proofs_Seq.
 Import ListNotations.
 Local Open Scope R_scope.
 
@@ -221,3 +224,74 @@ Theorem C16_history_nonvacuous :
   (nonzero3 3 0 1 /\ 0 < 2 /\ 0 <= 0 <= PI).
 Proof. exact (conj ex_history ex_angle_hypotheses). Qed.
 Print Assumptions C16_history_nonvacuous.
+
+(** ** Histories of calls in one process.  "for every angle": also for an angle that was used a moment ago with the other sign, for the
+    same angle asked again, after a call in the other dimension, about another axis ... *)
+
+(** each call of a history gets the answer that a process making this one call gets (and the history has one answer per call) - every number type *)
+Theorem C16_calls_answered_as_alone {T} (Ops : NumOps T) (hyp : T -> T -> T) (cs : list (@call T)) (answers : list (@answer T)) :
+  calls_run Ops hyp cs = Ok answers ->
+  length answers = length cs /\
+  forall i c, nth_error cs i = Some c ->
+    exists a, nth_error answers i = Some a /\ call_answer Ops hyp c = Ok a /\ calls_run Ops hyp [c] = Ok [a].
+Proof. exact (calls_run_answered_as_alone Ops hyp cs answers). Qed.
+Print Assumptions C16_calls_answered_as_alone.
+
+(** the same call made twice in a history, with anything in between, gets the same answer - every number type *)
+Theorem C16_calls_repeatable {T} (Ops : NumOps T) (hyp : T -> T -> T) (cs : list (@call T)) (answers : list (@answer T)) (i j : nat) (c : @call T) :
+  calls_run Ops hyp cs = Ok answers -> nth_error cs i = Some c -> nth_error cs j = Some c ->
+  exists a, nth_error answers i = Some a /\ nth_error answers j = Some a.
+Proof. exact (calls_run_repeatable Ops hyp cs answers i j c). Qed.
+Print Assumptions C16_calls_repeatable.
+
+(** a 3-D rotation at any position of any history is proper orthogonal, fixes its axis and turns perpendicular vectors by ITS OWN
+    angle in the right-handed sense *)
+Theorem C16_calls_rotation3_proper (cs : list (@call R)) (answers : list (@answer R)) (i : nat) (alpha a0 a1 a2 : R) :
+  calls_run ROps Rhypot cs = Ok answers -> nth_error cs i = Some (CRot alpha 3 [a0; a1; a2]) -> nonzero3 a0 a1 a2 ->
+  exists Rm, nth_error answers i = Some (AMat Rm) /\
+    mmul ROps (mtr Rm) Rm = I3 /\ mmul ROps Rm (mtr Rm) = I3 /\ det3 Rm = 1 /\
+    mvec ROps Rm [a0; a1; a2] = [a0; a1; a2] /\
+    forall v0 v1 v2, dot3 [a0; a1; a2] [v0; v1; v2] = 0 ->
+      mvec ROps Rm [v0; v1; v2] =
+      vplus (vscal (cos alpha) [v0; v1; v2]) (vscal (sin alpha) (cross3 (nhat [a0; a1; a2]) [v0; v1; v2])).
+Proof. exact (calls_rotation3_proper cs answers i alpha a0 a1 a2). Qed.
+Print Assumptions C16_calls_rotation3_proper.
+
+(** a 2-D rotation at any position of any history is [[cos, -sin], [sin, cos]] of its own angle *)
+Theorem C16_calls_rotation2_entries (cs : list (@call R)) (answers : list (@answer R)) (i : nat) (alpha : R) (axis : list R) :
+  calls_run ROps Rhypot cs = Ok answers -> nth_error cs i = Some (CRot alpha 2 axis) ->
+  nth_error answers i = Some (AMat [[cos alpha; - sin alpha]; [sin alpha; cos alpha]]).
+Proof. exact (calls_rotation2_entries cs answers i alpha axis). Qed.
+Print Assumptions C16_calls_rotation2_entries.
+
+(** "rotations about the same axis compose by adding angles", back and forth: alpha, -alpha and alpha again anywhere in a history -
+    the second matrix is the transpose and the inverse of the first, the third is the first *)
+Theorem C16_calls_back_and_forth (cs : list (@call R)) (answers : list (@answer R)) (i j k : nat) (alpha a0 a1 a2 : R) :
+  calls_run ROps Rhypot cs = Ok answers -> nonzero3 a0 a1 a2 ->
+  nth_error cs i = Some (CRot alpha 3 [a0; a1; a2]) -> nth_error cs j = Some (CRot (- alpha) 3 [a0; a1; a2]) ->
+  nth_error cs k = Some (CRot alpha 3 [a0; a1; a2]) ->
+  exists Ra Rb, nth_error answers i = Some (AMat Ra) /\ nth_error answers j = Some (AMat Rb) /\ nth_error answers k = Some (AMat Ra) /\
+    Rb = mtr Ra /\ mmul ROps Ra Rb = I3 /\ mmul ROps Rb Ra = I3.
+Proof. exact (calls_back_and_forth cs answers i j k alpha a0 a1 a2). Qed.
+Print Assumptions C16_calls_back_and_forth.
+Theorem C16_calls_back_and_forth_2d (cs : list (@call R)) (answers : list (@answer R)) (i j k : nat) (alpha : R) (ax1 ax2 ax3 : list R) :
+  calls_run ROps Rhypot cs = Ok answers ->
+  nth_error cs i = Some (CRot alpha 2 ax1) -> nth_error cs j = Some (CRot (- alpha) 2 ax2) -> nth_error cs k = Some (CRot alpha 2 ax3) ->
+  exists Ra Rb, nth_error answers i = Some (AMat Ra) /\ nth_error answers j = Some (AMat Rb) /\ nth_error answers k = Some (AMat Ra) /\
+    Rb = mtr Ra /\ mmul ROps Ra Rb = I2.
+Proof. exact (calls_back_and_forth_2d cs answers i j k alpha ax1 ax2 ax3). Qed.
+Print Assumptions C16_calls_back_and_forth_2d.
+
+(** spherical coordinates about a non-zero axis at any position of any history: norm r, component r cos(theta) along the axis *)
+Theorem C16_calls_spherical_axis (cs : list (@call R)) (answers : list (@answer R)) (i : nat) (r theta phi a0 a1 a2 : R) :
+  calls_run ROps Rhypot cs = Ok answers -> nth_error cs i = Some (CSphAxis r theta phi [a0; a1; a2]) -> nonzero3 a0 a1 a2 ->
+  exists u, nth_error answers i = Some (AVec u) /\ dot3 u u = r * r /\ dot3 u (nhat [a0; a1; a2]) = r * cos theta.
+Proof. exact (calls_spherical_axis cs answers i r theta phi a0 a1 a2). Qed.
+Print Assumptions C16_calls_spherical_axis.
+
+(** Non-vacuity: a history with a sign change of the angle between two equal calls, a 2-D call and a Spherical_Coordinates call in between, answers *)
+Theorem C16_calls_nonvacuous :
+  exists answers, calls_run ROps Rhypot
+    [CRot 1 3 [1; 2; 2]; CRot (- 1) 3 [1; 2; 2]; CRot 1 2 []; CSph 2 1 1; CRot 1 3 [1; 2; 2]] = Ok answers.
+Proof. exact ex_calls_history. Qed.
+Print Assumptions C16_calls_nonvacuous.
